@@ -832,6 +832,33 @@ fn ev_to_int_from<A: Fx, I: PInt + From<A>>(c: &mut Ctx) {
         c.wr.end();
     }
 }
+/// compile-time probe of impl existence (stable Rust): an inherent associated const, available only when the bound
+/// holds, shadows the blanket trait const
+struct ProbeFrom<S, D>(std::marker::PhantomData<(S, D)>);
+struct ProbeLossy<S, D>(std::marker::PhantomData<(S, D)>);
+trait NoImpl { const EXISTS: bool = false; }
+impl<T> NoImpl for T {}
+impl<S, D: From<S>> ProbeFrom<S, D> { const EXISTS: bool = true; }
+impl<S, D: LossyFrom<S>> ProbeLossy<S, D> { const EXISTS: bool = true; }
+fn ev_probe(c: &mut Ctx, a: Lay, b: Lay, from: bool, lossy: bool) {
+    if c.w8only { return; }
+    for (tr, ex) in [("From", from), ("LossyFrom", lossy)] {
+        head(c, "impl");
+        c.wr.raw(",\"tr\":\"");
+        c.wr.raw(tr);
+        c.wr.raw("\",\"A\":");
+        c.wr.lay(a);
+        c.wr.raw(",\"B\":");
+        c.wr.lay(b);
+        c.wr.raw(&format!(",\"exists\":{}}}", ex as u8));
+        c.wr.end();
+    }
+}
+macro_rules! probe {
+    ($c:expr, $s:ident, $d:ident) => {
+        ev_probe($c, <$s as Fx>::lay(), <$d as Fx>::lay(), <ProbeFrom<$s, $d>>::EXISTS, <ProbeLossy<$s, $d>>::EXISTS);
+    };
+}
 fn ev_from_bool<B: Fx + From<bool> + LossyFrom<bool>>(c: &mut Ctx) {
     if c.w8only { return; }
     for v in [false, true] {
